@@ -41,6 +41,18 @@ class Sym:
     def __iter__(self):
         raise SymLeak(f"iter() of symbolic {self!r} requested by native code")
 
+    def __eq__(self, other):
+        # python's containers test identity first, so `x in [x]` and dict lookups by the same wrapper never get here;
+        # anything else is native code comparing a symbolic value with something: never answer silently
+        if other is self:
+            return True
+        raise SymLeak(f"== on symbolic {self!r} evaluated by native code")
+
+    def __ne__(self, other):
+        if other is self:
+            return False
+        raise SymLeak(f"!= on symbolic {self!r} evaluated by native code")
+
     __hash__ = object.__hash__
 
 
